@@ -15,7 +15,12 @@ import os
 import vlib
 from props._world import WorldGen, History
 
+import re
 ATV_BAD_KINDS = ["fork", "expired", "unkn", "nobop"]
+# finding: after a failed setState / non-switching comparePopScore whose VTB temporarily moved the BTC best chain to a
+# fork of EQUAL work, the BTC best chain is not moved back (nothing else differs)
+BTC_TIE_KEY = "C02:btc-tip-not-restored-on-tie"
+BTC_TIE_RE = re.compile(r"views differ: -\[BTC best b\d+\] \+\[BTC best b\d+\]$")
 # planted VTBs: btcgap = BTC context does not connect (fails before the command group is built);
 # wunkn / wexpired = passes the stateless checks and the BTC-context check, fails INSIDE its command group after its
 # BTC blocks were added (endorsed VBK block unknown to the instance / more than vbk_settle behind the containing one)
@@ -164,12 +169,15 @@ class SmGen(WorldGen):
         if pk == "vtb":
             j = plant[1]
             kind = plant[2] if len(plant) > 2 else "btcgap"
+            # optional (bparent, last known) for the in-group failing kinds: lets a scenario aim the VTB's BTC blocks
+            # at a chosen BTC fork
+            hint_bp, hint_last = getattr(self, "btc_hint", None) or (None, None)
             known = sorted(self.alt[parent]["kv"], key=lambda v: int(v[1:]))
             if kind == "wexpired":
                 old = [v for v in known if v in self.vanc(self.vtip)
                        and self.vbk[self.vtip]["height"] + 1 - self.vbk[v]["height"] > self.vbk_settle()]
                 if old:
-                    w = self.make_xvtb(r.choice(old), self.last_btc(parent, vtbs[:j]))
+                    w = self.make_xvtb(r.choice(old), hint_last or self.last_btc(parent, vtbs[:j]), bparent=hint_bp)
                 else:
                     kind = "wunkn"
             if kind == "wunkn":
@@ -177,7 +185,7 @@ class SmGen(WorldGen):
                 if self.vtip == "v0":
                     self.mine_vbk()
                 x = self.mine_vbk(parent=self.vpar(self.vtip))
-                w = self.make_xvtb(x, self.last_btc(parent, vtbs[:j]))
+                w = self.make_xvtb(x, hint_last or self.last_btc(parent, vtbs[:j]), bparent=hint_bp)
             if kind == "btcgap":
                 pool = self.vtb_pool(known)
                 ahead = self.mine_btc()              # a BTC block this chain has never been shown
@@ -867,6 +875,74 @@ def gen_c02_spfork(ctx, sc, n_hist):
         sc.bump("c02_spfork_tied" if d == 0 else "c02_spfork_untied")
 
 
+def gen_c02_btcfork(ctx, sc, n_hist):
+    """BTC forks in C02 histories: two BTC forks p, q from a common block, delivered through the BTC context of two
+    VTBs carried by two consecutive ALT blocks of the active chain (p first; q mostly EXACTLY as long as p, so p stays
+    the BTC best chain). The target ALT block extends q through a VTB (the BTC best chain moves to q) and then fails:
+    either in a later command group (planted ATV) or inside the VTB group itself, after its BTC blocks were added."""
+    r = ctx.rng
+    for _ in range(n_hist):
+        cfg = small_cfg(r)
+        g = SmGen(r.fork(), cfg)
+        H = SmHistory(g)
+        a = "a0"
+        for _ in range(r.below(2)):
+            a = g.build_block(a, n_atv=r.below(2), n_extra=r.below(2))
+        base = g.best_known_btc(a)
+        k = r.range(1, 3)
+        d = r.choice([0, 0, 0, 0, 1, -1]) if k > 1 else r.choice([0, 0, 0, 1])
+        tips = []
+        par = a
+        blocks = []
+        for n in (k, k + d):
+            b = base
+            for _ in range(n):
+                b = g.mine_btc(parent=b)
+            pool = g.vtb_pool(g.alt[par]["kv"]) or [g.vtip]
+            w = g.make_vtb(r.choice(pool), base, bparent=b)
+            tips.append(g.vtb[w]["bop"])
+            par = g.build_from(par, [w], [], ())
+            blocks.append(par)
+        a1, a2 = blocks
+        qtip = tips[1]
+        H.show(a2, order="inorder")
+        H.on("set", a2)
+        H.on("sm")
+        for t in range(r.range(1, 3)):
+            parent = r.choice([a2, a2, a1])
+            last = qtip if parent == a2 else base
+            if r.chance(1, 2):
+                # an honest VTB extends q, a later ATV group fails
+                bp = qtip
+                for _ in range(r.below(2)):
+                    bp = g.mine_btc(parent=bp)
+                pool = g.vtb_pool(g.alt[parent]["kv"]) or [g.vtip]
+                w = g.make_vtb(r.choice(pool), last, bparent=bp)
+                ats = [g.make_atv(r.choice([x for x in g.ancestry(parent) if x != "a0"]))] if r.chance(1, 2) else []
+                tgt = g.build_from(parent, [w], ats, (), plant=("atv", len(ats), r.choice(ATV_BAD_KINDS)))
+            else:
+                # the VTB group itself fails after its BTC context / block of proof were added on top of q
+                bp = qtip
+                for _ in range(r.below(2)):
+                    bp = g.mine_btc(parent=bp)
+                g.btc_hint = (bp, last)
+                tgt = g.build_from(parent, [], [], (), plant=("vtb", 0, r.choice(["wunkn", "wexpired"])))
+                g.btc_hint = None
+            H.show(tgt, order="inorder")
+            H.on(r.choice(["set", "set", "cmp"]), tgt)
+            H.on("sm")
+            if r.chance(1, 2):
+                H.on("set", r.choice([a, a1, a2]))
+                H.on("sm")
+                H.on("set", a2)
+            sc.bump("c02_btcfork_targets")
+        H.on("react")
+        H.on("sm")
+        sc.add(g)
+        sc.bump("c02_btcfork_histories")
+        sc.bump("c02_btcfork_tied" if d == 0 else "c02_btcfork_untied")
+
+
 def gen_c20(ctx, sc, n_hist, steps):
     r = ctx.rng
     for k in range(n_hist):
@@ -1149,9 +1225,11 @@ def run_check(ctx, pid):
             if quick:
                 gen_c02(ctx, sc, 25, 4, 4, 12)
                 gen_c02_spfork(ctx, sc, 12)
+                gen_c02_btcfork(ctx, sc, 10)
             else:
                 gen_c02(ctx, sc, 500, 12, 6, 300)
                 gen_c02_spfork(ctx, sc, 300)
+                gen_c02_btcfork(ctx, sc, 200)
         elif pid == "C20":
             if quick:
                 gen_c20(ctx, sc, 36, 30)
@@ -1186,7 +1264,7 @@ def run_check(ctx, pid):
     # Violations are collected by kind and emitted with preference for diversity (the driver keeps five): at most two
     # library aborts, and a slot each for the first snapshot-oracle, model-disagreement, trace-oracle, re-activation and
     # twin failure, so that a replay shows the most specific evidence available.
-    pending = {"abort": [], "snapshot": [], "model": [], "trace": [], "react": [], "equal": []}
+    pending = {"abort": [], "snapshot": [], "btctie": [], "model": [], "trace": [], "react": [], "equal": []}
     nviol = 0
     # 1. crashes (assertion failures / aborts inside the library)
     for hist, line, err in crashes:
@@ -1199,13 +1277,20 @@ def run_check(ctx, pid):
     for cid, text in oracle:
         pre = cid.rsplit("_", 1)[0]
         cat = "trace" if text.startswith("C20 trace") else ("react" if text.startswith("C20") else "snapshot")
+        key = None
+        if cat == "snapshot" and BTC_TIE_RE.search(text):
+            # the ONLY before/after difference of the call is the BTC best chain tip: reported under a stable key
+            cat, key = "btctie", BTC_TIE_KEY
         seen.add(pre)
         if (pre, cat) in seen_cat:
             continue
         seen_cat.add((pre, cat))
         nviol += 1
-        pending[cat].append(({"kind": "ops", "script": history_of(lines, cid), "at": cid, "oracle": text,
-                              "what": "direct oracle failed on the implementation (%s)" % cat}, False))
+        obj = {"kind": "ops", "script": history_of(lines, cid), "at": cid, "oracle": text,
+               "what": "direct oracle failed on the implementation (%s)" % cat}
+        if key:
+            obj["key"] = key
+        pending[cat].append((obj, False))
     # 3. answers that must be equal (C01: instance with a history vs fresh twin)
     neq = 0
     carved = set()
@@ -1299,16 +1384,17 @@ def run_check(ctx, pid):
 
     # emit: the first of every specific kind, then at most two aborts, then whatever is left
     order = []
-    for cat in ("snapshot", "model", "trace", "react", "equal"):
+    for cat in ("snapshot", "model", "trace", "react", "equal", "btctie"):
         if pending[cat]:
             order.append(pending[cat].pop(0))
     order += pending["abort"][:2]
     for cat in ("snapshot", "trace", "react", "equal", "model"):
         order += pending[cat]
+    order += pending["btctie"][:1]
     # a model disagreement counts as "no failing input found" only when nothing concrete is reported
     concrete = any(not ni for _, ni in order)
     for obj, ni in order:
-        ctx.violation(obj, no_input=(ni and not concrete))
+        ctx.violation(obj, key=obj.get("key"), no_input=(ni and not concrete))
 
     # coverage
     ops = {}
